@@ -111,7 +111,7 @@ class Ctx:
 class Obligation:
     def __init__(self, oid, title, setup, run, replay, *, exact=True, functions=(), bounds="", stubs=(),
                  assumptions=(), timeout_s=1200, query_timeout_s=600, max_paths=20000, validate=None,
-                 tiers=("quick", "thorough"), degraded_models=24, expect_paths_min=1, cost=1, explore_budget_s=None, tactic=None):
+                 tiers=("quick", "thorough"), degraded_models=24, expect_paths_min=1, cost=1, explore_budget_s=None, tactic=None, logic=None):
         self.id, self.title = oid, title
         self.setup, self.run, self.replay = setup, run, replay
         self.exact = exact
@@ -123,6 +123,7 @@ class Obligation:
         self.cost = cost
         self.explore_budget_s = explore_budget_s if explore_budget_s is not None else 0.6 * timeout_s
         self.tactic = tactic
+        self.logic = logic      # None: z3's default combined solver; 'simple': z3.SimpleSolver (plain SMT core); else a logic name
 
 
 def load_known(prop):
@@ -172,7 +173,7 @@ def _run_obligation(args):
             except Unsupported as ex:
                 res["notes"].append(f"shim validation skipped, shim lacks a feature: {ex}")
         # 2. symbolic exploration
-        eng = Engine(timeout_ms=int(ob.query_timeout_s * 1000), seed=seed, max_paths=ob.max_paths)
+        eng = Engine(timeout_ms=int(ob.query_timeout_s * 1000), seed=seed, max_paths=ob.max_paths, logic=ob.logic)
         eng.deadline = time.time() + ob.explore_budget_s
         eng.tactic = getattr(ob, "tactic", None)
         ctx = Ctx(ob, eng, known)
@@ -299,7 +300,7 @@ def _safe_replay(ob, model, res):
 
 
 def _degraded(ob, ctx_known, seed, res):
-    eng = Engine(timeout_ms=60000, seed=seed)
+    eng = Engine(timeout_ms=60000, seed=seed, logic=ob.logic)
     ctx = Ctx(ob, eng, ctx_known)
     prev = sc._ENG[0]
     sc._ENG[0] = eng
